@@ -52,9 +52,16 @@
 //
 // pairs[]: every call of a function of the package that has a `depth` and/or `indent` parameter,
 // with the abstract values of the two arguments; CONSISTENT iff every such argument is derived,
-// and, when the callee has both parameters, they are I(k) and D(k) with one and the same single k
-// (or the callee ignores one of them, `_`).  A call with a non-derived depth/indent argument from
-// a function that has no depth/indent parameter itself is a ROOT call (Explain: Node(&sb, stmt, 0)).
+// and, when the callee has both parameters, they are I(ki) and D(kd) with single offsets and
+// ki - kd = skew(callee).  skew(f) is 0 unless ALL call sites of f pass one and the same other
+// difference c; f is then analysed under the precondition indent == spaces(depth + c), listed with
+// a skew key `pkg|f|indent == spaces(depth+c)`, and must be allow-listed (today
+// explainTupleInInList, c = -1).  All offsets in the output are relative to spaces(depth).
+// A call from a function that has no depth/indent parameter itself is a ROOT call; it is
+// consistent iff it passes the constant depth 0 (and the empty indent): Explain: Node(&sb, stmt, 0).
+//
+// funcs[]: every function that has the builder, depth or indent among its parameters or owns a
+// builder, with its line-state summary and skew key.
 //
 // Keys are `package|function|normalised text[ #n]`, no line numbers.
 package main
@@ -276,12 +283,33 @@ func nodeText(fset *token.FileSet, n ast.Node) string {
 	return normText(b.String())
 }
 
-// normText collapses white space and makes the text printable ASCII (other bytes become \xNN).
+// normText collapses white space OUTSIDE string, rune and raw-string literals (inside them every
+// byte counts: `indent + " "` and `indent + "  "` are different statements) and makes the text
+// printable ASCII (other bytes become \xNN).
 func normText(s string) string {
-	s = strings.Join(strings.Fields(s), " ")
 	var sb strings.Builder
+	var quote byte // 0 outside a literal
+	space := false
 	for i := 0; i < len(s); i++ {
 		c := s[i]
+		if quote == 0 && (c == ' ' || c == '\t' || c == '\n' || c == '\r') {
+			space = true
+			continue
+		}
+		if space && sb.Len() > 0 {
+			sb.WriteByte(' ')
+		}
+		space = false
+		switch {
+		case quote == 0 && (c == '"' || c == '\'' || c == '`'):
+			quote = c
+		case quote != 0 && quote != '`' && c == '\\' && i+1 < len(s):
+			sb.WriteByte(c)
+			i++
+			c = s[i]
+		case quote != 0 && c == quote:
+			quote = 0
+		}
 		if c < 32 || c > 126 {
 			fmt.Fprintf(&sb, "\\x%02x", c)
 		} else {
